@@ -121,6 +121,50 @@ def check_skipfile(ctx, out, rule="C01.skipfile"):
     out.inst(rule, n, 1, cands)
 
 
+def check_linekind(ctx, out, rule="C01.linekind"):
+    """unidiff knows four kinds of hunk lines: added, removed, context and the `\\ No newline at end of file`
+    marker. Inside the per-line loop, everything done to the queue of pending deleted lines happens under a
+    *positive* test of the line's kind (`is_added()` / `is_removed()` / `is_context()` holds) - never merely
+    because the other tests failed: a catch-all `else` makes the marker line, which git puts between the `-`
+    and the `+` of a rewritten last line, flush the pending deletion, so that one modified line is recorded
+    as a deletion plus an addition."""
+    n = 0
+    KIND = r"^unidiff::Line::is_(added|removed|context)$"
+    for b0 in diff_bodies(ctx):
+        if b0.kind == "Closure":
+            continue
+        # (the kind tests may sit in a `visit(line)` method of a collector: read where the loop is, helpers inlined)
+        for b in (ctx.inl(b0, skip=ctx.domain_api, tag="domain", sugar=True),):
+            cfg = cfg_of(b)
+            kinds = [bi for bi, t in b.calls() if callee_matches(t, KIND)]
+            if not kinds:
+                continue
+            # the per-line loop: the most deeply nested loop in which a kind test is made (the end-of-hunk flush,
+            # one level up, may ask what kind the *previous* line was)
+            deep = max(kinds, key=lambda x: len(cfg.loops_containing(x)))
+            lh = cfg.innermost_loop(deep)
+            if lh is None:
+                continue
+            lblocks = set(cfg.loops()[lh])
+            queues = {l for l, loc in enumerate(b.locals) if "VecDeque<&" in (loc.get("ty") or "") and "unidiff::Line" in (loc.get("ty") or "")}
+            for bi, t in b.calls():
+                if bi not in lblocks or cfg.innermost_loop(bi) != lh or not t["args"]:
+                    continue
+                # (wherever the queue lives - a local, a field of a collector struct: its own mutating methods)
+                touches = re.search(r"VecDeque::<T, A>::(push_back|push_front|pop_front|pop_back|clear|drain|truncate|retain|append|extend)$", t.get("def") or "") is not None
+                if not touches:
+                    continue
+                gs = util.guards(ctx, b, bi)
+                pos = [g for g in gs if g[2][0] == "call" and re.search(KIND, g[2][1]) and 0 not in g[1]]
+                if pos:
+                    n += 1
+                else:
+                    out.viol(rule, "%s|%s|%s" % (rule, b0.id, callee_name(t).split("::")[-1]), ctx.where(b, t["span"]),
+                             "inside the per-line loop `%s` changes the queue of pending deleted lines without a positive test of the line's kind (guards: %s): the `\\ No newline at end of file` marker, which is neither added, removed nor context, takes this branch too" % (
+                                 callee_name(t).split("::")[-1], [render(g[2], 60) for g in gs[:3]]))
+    out.inst(rule, n, 2, ["pop_front under is_added, push_back under is_removed, flush under is_context"])
+
+
 def check_queue(ctx, out):
     """FIFO discipline of the deleted-line queue and flush at every hunk end."""
     n = 0
@@ -558,6 +602,7 @@ def run(ctx, out, tier):
     # whether a change touches a block is decided with the range kind the block model declares (shared with C02)
     from rules.C02 import check_inclusive
     check_inclusive(ctx, out, rule="C01.incl")
+    check_linekind(ctx, out)
     return meta()
 
 
